@@ -177,6 +177,8 @@ def b_int(I, args, kw, node):
             return z3.If(v >= 0, z3.ToInt(v), -z3.ToInt(-v))
     if isinstance(v, Opaque):
         return I.fresh_int("int_of_opaque")
+    if isinstance(v, Abstract) and hasattr(v, "builtin_int"):
+        return v.builtin_int(I)
     raise OutsideSubset("int() of %r" % (v,), node)
 
 
